@@ -17,13 +17,13 @@ MIRROR = os.path.join(WORK, "mirror")
 
 VARIANTS = {
     "san": dict(cc="gcc", cxx="g++",
-                flags="-O1 -g1 -fsanitize=address,undefined -fno-sanitize=null,alignment,vptr -fno-omit-frame-pointer -DUSCXML_VERIF",
+                flags="-O1 -g1 -fsanitize=address,undefined -fno-sanitize=null,alignment,vptr,signed-integer-overflow,shift-base -fno-omit-frame-pointer -DUSCXML_VERIF",
                 ld="-fsanitize=address,undefined"),
     "tsan": dict(cc="gcc", cxx="g++",
                  flags="-O1 -g1 -fsanitize=thread -DUSCXML_VERIF",
                  ld="-fsanitize=thread"),
     "fuzz": dict(cc="clang", cxx="clang++",
-                 flags="-O1 -g1 -fsanitize=fuzzer-no-link,address,undefined -fno-sanitize=null,alignment,vptr,function -fno-sanitize-recover=undefined -DUSCXML_VERIF",
+                 flags="-O1 -g1 -fsanitize=fuzzer-no-link,address,undefined -fno-sanitize=null,alignment,vptr,function,signed-integer-overflow,shift-base -fno-sanitize-recover=undefined -DUSCXML_VERIF",
                  ld="-fsanitize=address,undefined"),
     "plain": dict(cc="gcc", cxx="g++", flags="-O1 -g1 -DUSCXML_VERIF", ld=""),
 }
@@ -66,6 +66,10 @@ def build_dir(variant):
 def build_lib(variant):
     v = VARIANTS[variant]
     b = build_dir(variant)
+    stamp = os.path.join(b, ".verif_flags")
+    flagsig = v["cc"] + "|" + v["flags"] + "|" + v["ld"]
+    if os.path.exists(stamp) and open(stamp).read() != flagsig:
+        shutil.rmtree(b, ignore_errors=True)
     if not os.path.exists(os.path.join(b, "build.ninja")):
         os.makedirs(b, exist_ok=True)
         env = dict(os.environ, CC=v["cc"], CXX=v["cxx"])
@@ -77,6 +81,8 @@ def build_lib(variant):
              "-DCMAKE_CXX_FLAGS=-Wno-error -w " + v["flags"],
              "-DCMAKE_CXX_FLAGS_RELWITHDEBINFO=-DNDEBUG", "-DCMAKE_C_FLAGS_RELWITHDEBINFO=-DNDEBUG",
              "-DCMAKE_SHARED_LINKER_FLAGS=" + v["ld"], "-DCMAKE_EXE_LINKER_FLAGS=" + v["ld"]], env=env)
+    if not os.path.exists(stamp):
+        open(stamp, "w").write(flagsig)
     t = time.time()
     run(["ninja", "-C", b, "-j", os.environ.get("VERIF_JOBS", "16"), "uscxml", "uscxml_transform"])
     log("lib %s up to date (%.1fs)" % (variant, time.time() - t))
